@@ -1,5 +1,6 @@
 import AkVerif.Model.Proto
 import AkVerif.Model.SrcPos
+import AkVerif.Model.SrcPosCompose
 import AkVerif.Gen.C04
 open Ak Ak.Proto SrcPos
 
@@ -102,6 +103,72 @@ def runTok (cfg : Cfg) (inp : Input) (tbl : List LineTbl) : Option (Except TokEr
     some (tokenize B cfg (reOfTable cfg.spanKinds tbl) lines)
   else none
 
+/-! composition with the LL model: the driver builds the parser (`LL.construct`) from the productions,
+tokenizes with the C04 model and runs the positioned stack machine `runP` -/
+
+def parseNames (s : String) : Option (List (List Char)) :=
+  (s.splitOn "|").mapM parseCps
+
+def parseAlt (s : String) : Option (List Nat) :=
+  if s = "~" then some [] else (s.splitOn ".").mapM (·.toNat?)
+
+def parseProdsIds (s : String) : Option (List (Nat × List (List Nat))) :=
+  if s = "-" then some [] else
+  (s.splitOn ";").mapM fun it =>
+    match it.splitOn "=" with
+    | [n, alts] =>
+      match n.toNat?, (if alts = "" then some [] else (alts.splitOn "|").mapM parseAlt) with
+      | some n, some a => some (n, a)
+      | _, _ => none
+    | _ => none
+
+def parseSkipIds (s : String) : Option (Option (List Nat)) :=
+  if s = "-" then some none
+  else if s = "()" then some (some [])
+  else (parseNatList s).map some
+
+def namesOf (names : List (List Char)) (ids : List Nat) : Option (List (List Char)) :=
+  ids.mapM fun i => names[i]?
+
+def mkCtor (names : List (List Char)) (cfg : Cfg) (groups : List Nat) (skip : Option (List Nat))
+    (start : Nat) (prods : List (Nat × List (List Nat))) (smart : Bool) : Option LL.CtorIn := do
+  let groups ← namesOf names groups
+  let syn ← cfg.synonyms.mapM fun (a, b) => do pure ((← names[a]?), (← names[b]?))
+  let kw ← cfg.keywords.mapM fun ((a, v), b) => do pure (((← names[a]?), v), (← names[b]?))
+  let skip ← match skip with
+    | none => some none
+    | some l => (namesOf names l).map some
+  let start ← names[start]?
+  let prods ← prods.mapM fun (n, alts) => do
+    pure ((← names[n]?), (← alts.mapM fun a => namesOf names a))
+  pure { groups := groups, syn := syn, kw := kw, skip := skip, start := start, prods := prods, smart := smart }
+
+def showParseErr : ParseErr → String
+  | .parsing p => s!"err ParsingError {p.line} {p.col}"
+  | .py e => "err " ++ e.name
+
+def handlePtree (smart spans syn kw endN ik idata tbl names groups skip start prods : String) : String :=
+  match parseCfg spans syn kw endN, parseInput ik idata, parseTable tbl, parseNames names,
+      parseNatList groups, parseSkipIds skip, start.toNat?, parseProdsIds prods with
+  | some cfg, some inp, some tbl, some names, some groups, some skip, some start, some prods =>
+    match mkCtor names cfg groups skip start prods (smart = "smart=1") with
+    | none => "bad-op"
+    | some ctor =>
+      match LL.construct ctor with
+      | .error e => "err " ++ e.name
+      | .ok P =>
+        -- hypotheses of `C04.parse_node_span`, checked on every request
+        if ¬ parserOk P then "bad-grammar" else
+        match runTok cfg inp tbl with
+        | none => "bad-table"
+        | some (.error x) => showTokErr x
+        | some (.ok ts) =>
+          match parseToks names cfg P ts parseFuel with
+          | none => "bad-op"
+          | some (.error e) => showParseErr e
+          | some (.ok t) => "ok " ++ ";".intercalate (t.preorder.map fun sp => withOrig inp sp.s sp.e)
+  | _, _, _, _, _, _, _, _ => "bad-op"
+
 def handle (line : String) : String :=
   match splitWs line with
   | [op, _cfgid, spans, syn, kw, endN, ik, idata, tbl] =>
@@ -133,6 +200,8 @@ def handle (line : String) : String :=
         | .error e => "err " ++ e.name
         | .ok (_, _, all) => "ok " ++ ";".intercalate (all.map fun n => withOrig inp n.span.s n.span.e)
     | _, _, _, _, _ => "bad-op"
+  | ["ptree", _cfgid, _gid, smart, spans, syn, kw, endN, ik, idata, tbl, names, groups, skip, start, prods] =>
+    handlePtree smart spans syn kw endN ik idata tbl names groups skip start prods
   | _ => "bad-op"
 
 def main : IO Unit := run handle
